@@ -884,6 +884,15 @@ def observations() -> list[dict]:
         if abs(s1 / s0 / 7.48340206185567 - 1) > 1e-3:
             raise RuntimeError(f"scaling_factor {s0:.6f} -> {s1:.6f} under scale 7.4834 (expected {s0 * 7.48340206185567:.6f}); per-coil sums of "
                                f"the masked k-space: {c0} vs {c1}")
+    def crash_by_noise():
+        fl = {**default_flags(), "pad": 1, "estimate_smaps": 0, "delete_kspace": 0, "recon": 3, "scaling_key": 1}
+        tr = build_real(fl, _mask_func(), *_ops(False), pad_shape=(11, 11), percentile=0.9)
+        run_real(tr, raw_sample(_gauss_sample(1612761905, 1, 0, 8, 10, 0, False)))
+    attempt("... and for single-coil data the same noise makes the pipeline *raise* on an ordinary sample: the only coil is "
+            "dropped when its noise sum is exactly 0.0 and torch.kthvalue is called on an empty tensor",
+            "build_mri_transforms(fft2 uncentred, ifft2 uncentred, mask, pad=(11, 11), scale_percentile=0.9, scaling_key='kspace', "
+            "estimate_sensitivity_maps=False, image_recon_type='complex_mod', delete_kspace=False) on RandomState(1612761905) randn (1, 8, 10)",
+            crash_by_noise)
     attempt("ComputeScalingFactor decides which coils are 'not padded' by `data[_].sum(...).bool()`.  With PadKspace and un-centred "
             "FFT operators that sum is theoretically zero (the zero-padded image row 0), so the test is decided by float32 rounding "
             "noise: under a non-dyadic scale a coil whose noise happens to be exactly 0.0 is dropped from the percentile and the "
@@ -1149,9 +1158,15 @@ def check_config(cfg, k: np.ndarray):
         return run_real(tr, smp)
 
     rep = {"op": "pipeline", **cfg}
+    # PadKspace with un-centred operators: the per-coil sums that ComputeScalingFactor's percentile branch tests are rounding
+    # noise (see below); a coil — for single-coil data: every coil, then torch.kthvalue raises — is dropped whenever the noise is
+    # exactly 0.0.  Recorded observation (PadKspace is outside the property's quantifier), not judged here.
+    noise_decided = bool(f["pad"] and f["percentile"] and not cfg.get("centered", True))
     try:
         base = run(1.0)
     except Exception as e:  # noqa: BLE001
+        if noise_decided and "kthvalue" in str(e):
+            return
         yield Violation("pipeline-raises", f"the composed transform raises {err_name(e)}: {e}", {**rep, "observed": repr(e)})
         return
     # (v) finiteness
@@ -1168,7 +1183,8 @@ def check_config(cfg, k: np.ndarray):
         try:
             o = run(sc)
         except Exception as e:  # noqa: BLE001
-            yield Violation("scaled-raises", f"the transform raises on the scaled input: {e}", {**rep, "scale": sc})
+            if not (noise_decided and "kthvalue" in str(e)):
+                yield Violation("scaled-raises", f"the transform raises on the scaled input: {e}", {**rep, "scale": sc})
             continue
         for kk in NORMALISED:
             if (kk in base) != (kk in o):
@@ -1182,7 +1198,12 @@ def check_config(cfg, k: np.ndarray):
             yield Violation("scaling-factor-pow2", f"scaling_factor {s0} -> {s1} under scale {sc}",
                             {**rep, "scale": sc, "expected": s0 * sc, "observed": s1})
     sc = 0.37 + (cfg["seed"] % 1000) / 97.0
-    o = run(sc)
+    try:
+        o = run(sc)
+    except Exception as e:  # noqa: BLE001
+        if not (noise_decided and "kthvalue" in str(e)):
+            yield Violation("scaled-raises", f"the transform raises on the scaled input: {e}", {**rep, "scale": sc})
+        return
     # with PadKspace the zero-padded image rows carry only FFT rounding noise, which EstimateSensitivityMap normalises to unit
     # magnitude (the safe division guards exact zeros only): the map — and a SENSE target — is not stable under a
     # non-dyadic scale there (recorded observation); bit-exactness under 2^k is still required above
@@ -1191,7 +1212,6 @@ def check_config(cfg, k: np.ndarray):
     # row 0), so ComputeScalingFactor's `data[_].sum(...).bool()` test for non-padded coils is decided by rounding noise: a coil
     # is dropped from the percentile whenever the noise is exactly 0.0, and the scaling factor jumps (recorded observation with a
     # deterministic repro; PadKspace is outside the property's quantifier).  Dyadic scales are still compared bit-exactly.
-    noise_decided = bool(f["pad"] and f["percentile"] and not cfg.get("centered", True))
     if noise_decided:
         unstable = set(NORMALISED)
     for kk in NORMALISED:
